@@ -34,7 +34,7 @@ TOL_CLOSED = 1e-9  # h_matrix vs closed-form reference (relative to scale, divid
 TOL_GRID = 1e-9  # err(A) <= min over the competitor grid + TOL_GRID * scale
 TOL_TPS = 1e-8  # TPS interpolation / affine reproduction
 TOL_PWA = 1e-12  # PWA interpolation at the vertices (relative to scale)
-TOL_PWA_IN = 1e-10  # PWA inside triangles (a division by the triangle determinant is involved)
+TOL_PWA_IN = 1e-9  # PWA inside triangles (a division by the triangle determinant is involved)
 TOL_ID = 1e-12  # identities that use the same arithmetic up to re-association
 MIN_GAP = 1e-3  # below this relative gap the optimal rotation is not compared as a matrix (only through its error)
 GUARD_DIST = 0.3  # chained sources (outputs of a previous alignment) are expanded only when still in general position
